@@ -810,90 +810,136 @@ func c02R9(c *Ctx) {
 // not carry the traffic mode: an RDMA interface recorded without it takes ordinary pods.
 func c02R10(c *Ctx) {
 	p := asWritten(c.P) // a statement about the author's text: which answer feeds which field
-	c.Rule("C02.R10", "ReconcileNode.createENI: the value returned by WaitForNetworkInterface… is recorded without any of its fields being assigned in between (the cloud's description is read as what it says)")
+	c.Rule("C02.R10", "ReconcileNode.createENI: the value returned by WaitForNetworkInterface… is recorded without any of its fields being assigned in between, and the record entry built from it takes nothing from the create answer (the cloud's description is read as what it says)")
 	fn := p.Func(nodeCtlPkg, "ReconcileNode.createENI")
 	if fn == nil {
 		c.Unres("C02.R10", "ReconcileNode.createENI", "not found")
 		return
 	}
 	info := fn.Info()
-	var desc types.Object
+	var desc, created types.Object
 	ast.Inspect(fn.Decl.Body, func(k ast.Node) bool {
 		if as, ok := k.(*ast.AssignStmt); ok && len(as.Rhs) == 1 && len(as.Lhs) >= 1 {
 			if call, ok := ast.Unparen(as.Rhs[0]).(*ast.CallExpr); ok {
-				if f := Callee(info, call); f != nil && strings.HasPrefix(f.Name(), "WaitForNetworkInterface") {
-					desc = identObj(info, as.Lhs[0])
-				}
-			}
-		}
-		return true
-	})
-	if desc == nil {
-		c.Undec("C02.R10", "createENI waits for the interface", p.Pos(fn.Decl), fn.Key(), "eni, err := WaitForNetworkInterface…(…)", "not found")
-		return
-	}
-	var stores []string
-	ast.Inspect(fn.Decl.Body, func(k ast.Node) bool {
-		if as, ok := k.(*ast.AssignStmt); ok {
-			for _, l := range as.Lhs {
-				if sel, ok := ast.Unparen(l).(*ast.SelectorExpr); ok {
-					if root := rootIdent(sel); root != nil && info.ObjectOf(root) == desc {
-						stores = append(stores, p.Pos(as)+": "+exprString2(as))
+				if f := Callee(info, call); f != nil {
+					switch {
+					case strings.HasPrefix(f.Name(), "WaitForNetworkInterface"):
+						desc = identObj(info, as.Lhs[0])
+					case strings.HasPrefix(f.Name(), "CreateNetworkInterface") && created == nil:
+						created = identObj(info, as.Lhs[0])
 					}
 				}
 			}
 		}
 		return true
 	})
-	c.Check(len(stores) == 0, "C02.R10", "createENI: the description is not edited", p.Pos(fn.Decl), fn.Key(), "no assignment to a field of the described interface", strings.Join(stores, "; "))
-	// the record entry built from the description takes nothing from the create answer afterwards
-	var entry, created types.Object
-	ast.Inspect(fn.Decl.Body, func(k ast.Node) bool {
-		if as, ok := k.(*ast.AssignStmt); ok && len(as.Rhs) == 1 && len(as.Lhs) >= 1 {
-			if call, ok := ast.Unparen(as.Rhs[0]).(*ast.CallExpr); ok {
-				if f := Callee(info, call); f != nil && strings.HasPrefix(f.Name(), "CreateNetworkInterface") && created == nil {
-					created = identObj(info, as.Lhs[0])
-				}
-				for _, a := range call.Args {
-					if identObj(info, a) == desc && len(as.Lhs) == 1 {
-						entry = identObj(info, as.Lhs[0])
-					}
-				}
-			}
-		}
-		return true
-	})
-	if entry == nil || created == nil {
-		c.Undec("C02.R10", "createENI: record entry and create answer", p.Pos(fn.Decl), fn.Key(), "entry := build(description); result := Create…", fmt.Sprintf("entry found=%v create answer found=%v", entry != nil, created != nil))
+	if desc == nil || created == nil {
+		c.Undec("C02.R10", "createENI creates and then waits for the interface", p.Pos(fn.Decl), fn.Key(), "result := Create…; eni, err := WaitForNetworkInterface…(…)", fmt.Sprintf("description found=%v create answer found=%v", desc != nil, created != nil))
 		return
 	}
-	var fromCreate []string
-	ast.Inspect(fn.Decl.Body, func(k ast.Node) bool {
-		as, ok := k.(*ast.AssignStmt)
-		if !ok {
-			return true
-		}
-		for i, l := range as.Lhs {
-			sel, ok := ast.Unparen(l).(*ast.SelectorExpr)
-			if !ok || i >= len(as.Rhs) {
-				continue
+	// follow the description (and the create answer, where it is handed on too) through the helpers
+	// that file the interface, to depth 2
+	var edits, fromCreate []string
+	entries := 0
+	var visit func(fn *FuncInfo, desc, created types.Object, depth int)
+	visit = func(fn *FuncInfo, desc, created types.Object, depth int) {
+		info := fn.Info()
+		mentions := func(x ast.Node, o types.Object) bool {
+			hit := false
+			if o == nil {
+				return false
 			}
-			if root := rootIdent(sel); root == nil || info.ObjectOf(root) != entry {
-				continue
-			}
-			mentions := false
-			ast.Inspect(as.Rhs[i], func(j ast.Node) bool {
-				if id, ok := j.(*ast.Ident); ok && info.ObjectOf(id) == created {
-					mentions = true
+			ast.Inspect(x, func(j ast.Node) bool {
+				if id, ok := j.(*ast.Ident); ok && info.ObjectOf(id) == o {
+					hit = true
 				}
-				return !mentions
+				return !hit
 			})
-			if mentions {
-				fromCreate = append(fromCreate, p.Pos(as)+": "+exprString2(as))
-			}
+			return hit
 		}
-		return true
-	})
+		var entry []types.Object
+		ast.Inspect(fn.Decl.Body, func(k ast.Node) bool {
+			switch t := k.(type) {
+			case *ast.AssignStmt:
+				for i, l := range t.Lhs {
+					// an edit of the description
+					if sel, ok := ast.Unparen(l).(*ast.SelectorExpr); ok {
+						if root := rootIdent(sel); root != nil && info.ObjectOf(root) == desc {
+							edits = append(edits, p.Pos(t)+": "+exprString2(t))
+						}
+					}
+					// the entry: a variable built by a call that takes the description
+					if len(t.Rhs) == len(t.Lhs) {
+						if call, ok := ast.Unparen(t.Rhs[i]).(*ast.CallExpr); ok && len(t.Lhs) == 1 {
+							for _, a := range call.Args {
+								if identObj(info, a) == desc {
+									if o := identObj(info, l); o != nil {
+										entry = append(entry, o)
+										entries++
+									}
+								}
+							}
+						}
+					}
+				}
+			case *ast.CallExpr:
+				// handed on to a helper of the package
+				if depth < 2 {
+					if callee := p.FuncOf(Callee(info, t)); callee != nil && callee.Pkg == fn.Pkg && callee != fn {
+						var d2, c2 types.Object
+						i := 0
+						for _, f := range callee.Decl.Type.Params.List {
+							for _, nm := range f.Names {
+								if i < len(t.Args) {
+									if identObj(info, t.Args[i]) == desc {
+										d2 = callee.Info().Defs[nm]
+									}
+									if created != nil && identObj(info, t.Args[i]) == created {
+										c2 = callee.Info().Defs[nm]
+									}
+								}
+								i++
+							}
+						}
+						if d2 != nil {
+							visit(callee, d2, c2, depth+1)
+						}
+					}
+				}
+			}
+			return true
+		})
+		if created == nil {
+			return
+		}
+		for _, en := range entry {
+			ast.Inspect(fn.Decl.Body, func(k ast.Node) bool {
+				as, ok := k.(*ast.AssignStmt)
+				if !ok {
+					return true
+				}
+				for i, l := range as.Lhs {
+					sel, ok := ast.Unparen(l).(*ast.SelectorExpr)
+					if !ok || i >= len(as.Rhs) {
+						continue
+					}
+					if root := rootIdent(sel); root == nil || info.ObjectOf(root) != en {
+						continue
+					}
+					if mentions(as.Rhs[i], created) {
+						fromCreate = append(fromCreate, p.Pos(as)+": "+exprString2(as))
+					}
+				}
+				return true
+			})
+		}
+	}
+	visit(fn, desc, created, 0)
+	c.Check(len(edits) == 0, "C02.R10", "createENI: the description is not edited", p.Pos(fn.Decl), fn.Key(), "no assignment to a field of the described interface", strings.Join(edits, "; "))
+	if entries == 0 {
+		c.Undec("C02.R10", "createENI: the record entry built from the description", p.Pos(fn.Decl), fn.Key(), "entry := build(description) in createENI or in the helper it hands the description to", "not found")
+		return
+	}
 	c.Check(len(fromCreate) == 0, "C02.R10", "createENI: the recorded entry takes nothing from the create answer", p.Pos(fn.Decl), fn.Key(), "fields of the entry come from the description (and the chosen vSwitch)", strings.Join(fromCreate, "; "))
 }
 
